@@ -27,6 +27,9 @@ type RawInput struct {
 	Via       string `json:"via"`       // server | bare
 	Segs      []hx.B `json:"segments"`  // client writes (udp: one datagram)
 	Reply     []hx.B `json:"reply"`     // backend's reply writes (udp: one datagram, none = no reply)
+	// a case that is one client of a concurrent scenario carries the whole scenario (replay runs it all)
+	Conc *ConcScenario `json:"concurrent,omitempty"`
+	Me   int           `json:"me,omitempty"`
 }
 
 type RawObs struct {
@@ -536,10 +539,16 @@ func coqRawCase(id int, in RawInput, ob RawObs) string {
 
 func runRawPart(o hx.Opts, r *hx.Rand, e *env, replay *Input) {
 	var ins []RawInput
+	var concs []ConcScenario
 	if replay != nil {
-		ins = []RawInput{*replay.Raw}
+		if replay.Raw.Conc != nil {
+			concs = []ConcScenario{*replay.Raw.Conc}
+		} else {
+			ins = []RawInput{*replay.Raw}
+		}
 	} else {
 		ins = genRawInputs(o, r)
+		concs = genConcScenarios(o, r)
 	}
 	dist := map[string]int{}
 	var cases []hx.Case
@@ -550,6 +559,19 @@ func runRawPart(o hx.Opts, r *hx.Rand, e *env, replay *Input) {
 		dist["payload:"+sizeClass(len(concatB(in.Segs)))]++
 		inp := in
 		cases = append(cases, hx.Case{ID: i, Kind: "raw-" + in.Via + "-" + in.Svc + "-" + in.Transport, Input: Input{Part: "raw", Raw: &inp}, Obs: ob, Crash: crash, Coq: coqRawCase(i, in, ob)})
+	}
+	for k := range concs {
+		sc := concs[k]
+		obs, crash := e.runConc(sc)
+		dist[fmt.Sprintf("concurrent:%s/%s/%d-clients", sc.Svc, sc.Transport, len(sc.Clients))]++
+		for i := range sc.Clients {
+			id := len(cases)
+			in := sc.Clients[i]
+			in.Svc, in.Transport, in.Via = sc.Svc, sc.Transport, "server"
+			full := in
+			full.Conc, full.Me = &concs[k], i
+			cases = append(cases, hx.Case{ID: id, Kind: "raw-concurrent-" + sc.Svc + "-" + sc.Transport, Input: Input{Part: "raw", Raw: &full}, Obs: obs[i], Crash: crash[i], Coq: coqRawCase(id, in, obs[i])})
+		}
 	}
 	if n := e.decoy.count() - decoy0; n > 0 && len(cases) > 0 && cases[len(cases)-1].Crash == "" {
 		cases[len(cases)-1].Crash = fmt.Sprintf("the decoy listener was contacted %d time(s) during the raw part", n)
